@@ -143,3 +143,20 @@ Example C09_source_fetch_observational : _ := @src_cache_fetch_c09 unit.
 Print Assumptions C09_source_fetch_observational.
 Example C09_source_histories_are_model : _ := @g_crun_all_eq unit.
 Print Assumptions C09_source_histories_are_model.
+
+(* ---- tie C (third extension, "small"): CachedTimeline.__init__ (a new cache is the model's initial state,
+   masked exactly when its source is a mask), _get_key and _is_mask as the code has them
+   (Proofs/GenEq_small_cache.v) ---- *)
+From CG Require Import Proofs.GenEq_small_cache.
+Example C09_source_init_is_model : _ := g_cached_init_eq.
+Print Assumptions C09_source_init_is_model.
+Example C09_source_init_is_cinit : _ := g_cached_init_is_cinit.
+Print Assumptions C09_source_init_is_cinit.
+Example C09_source_get_key_is_model : _ := g_cache_get_key_eq.
+Print Assumptions C09_source_get_key_is_model.
+Example C09_source_get_key_spec : _ := g_cache_get_key_spec.
+Print Assumptions C09_source_get_key_spec.
+Example C09_source_get_key_is_key_of : _ := g_cache_get_key_model.
+Print Assumptions C09_source_get_key_is_key_of.
+Example C09_source_cached_is_mask : _ := g_cached_is_mask_eq.
+Print Assumptions C09_source_cached_is_mask.
